@@ -69,7 +69,38 @@ type Profile struct {
 
 var Profiles = map[string]*Profile{}
 
-func register(p *Profile) { Profiles[p.Name] = p }
+func register(p *Profile) {
+	if gen := p.Generate; gen != nil {
+		p.Generate = func(seed uint64, r *rng.Rand) *Plan { return capSplits(gen(seed, r)) }
+	}
+	Profiles[p.Name] = p
+}
+
+// capSplits drops split faults that would take a plan beyond 6 user regions:
+// the region sets of the connection cache are pointer-keyed maps, whose
+// iteration order the runtime overlay controls only up to 8 entries (one
+// regionserver may host every region plus hbase:meta).
+func capSplits(p *Plan) *Plan {
+	if p == nil {
+		return p
+	}
+	n := 0
+	for _, t := range p.Layout.Tables {
+		n += len(t.Splits) + 1
+	}
+	out := p.Faults[:0]
+	for _, f := range p.Faults {
+		if f.Act == "split" {
+			if n >= 6 {
+				continue
+			}
+			n++
+		}
+		out = append(out, f)
+	}
+	p.Faults = out
+	return p
+}
 
 // BuildCluster creates the model cluster of a layout.
 func BuildCluster(l Layout) *hb.Cluster {
